@@ -92,6 +92,7 @@ hop_st = st.fixed_dictionaries({
     "leaf": seg_body,
     "qargs": qargs_st,
     "bodylen": st.sampled_from([0, 0, 7]),
+    "frag": st.sampled_from([None, None, None, "top", "sec-2"]),
 })
 case_st = st.fixed_dictionaries({
     "nservers": st.integers(2, 3),
@@ -127,7 +128,7 @@ def build_chain(case):
             path = cur_path
             ref = ""
             positions.append((server, path, [["hop", str(i + 1)]] + [q for q in h["qargs"] if q[0] != "hop"]))
-            hops.append({"code": h["code"], "style": style, "ref": ref, "bodylen": h["bodylen"]})
+            hops.append({"code": h["code"], "style": style, "ref": ref, "bodylen": h["bodylen"], "frag": h.get("frag")})
             continue
         elif style == "relpath":
             server = cur_server
@@ -145,7 +146,7 @@ def build_chain(case):
             ref = quote(rel)
             path = _resolve(cur_path, rel)
         positions.append((server, path, h["qargs"]))
-        hops.append({"code": h["code"], "style": style, "ref": ref, "bodylen": h["bodylen"]})
+        hops.append({"code": h["code"], "style": style, "ref": ref, "bodylen": h["bodylen"], "frag": h.get("frag")})
     return positions, hops
 
 
@@ -159,6 +160,8 @@ def location(hop, target, ports):
     server, path, qargs = target
     q = urlencode([(k, v) for k, v in qargs])
     tail = ("?" + q) if q else ""
+    if hop.get("frag"):
+        tail += "#" + hop["frag"]        # a fragment is never part of the request sent to the resolved location
     if hop["style"] == "abs":
         return "http://127.0.0.1:%d%s%s" % (ports[server], quote(path), tail)
     if hop["style"] == "abshost":
@@ -599,6 +602,8 @@ def classify(case):
             nt = True
         if positions[i + 1][2]:
             cls.append("location-with-query")
+            if h.get("frag"):
+                cls.append("location-with-query-and-fragment")
     if case.get("again") is not None:
         cls.append("second-request-same-patron")
     cls.append("method:" + case.get("method", "GET"))
